@@ -127,7 +127,7 @@ def case_copies(ctx):
         A_ = z(core.rat_pow(L0 / R0, Fr(5, 3)).re)
         tol = z(Fr(1, 10 ** 9))
         ctx.prove("(a) path%d: structure_function_vk(r,r0,L0) = stf_vonKarman(r/r0, L0/r0) (to 1e-9 of the saturation value)" % pi, hyp + [a >= 0, b >= 0],
-                  z3.And(a - b <= tol * A_, b - a <= tol * A_), replay=rp, witness_terms=NAMES, timeout_ms=60000)
+                  z3.And(a - b <= tol * A_, b - a <= tol * A_), replay=rp, witness_terms=NAMES, timeout_ms=30000, replay_on_unknown=True)
         k1, k2 = mg.merge([z(Sym.lift(K1).re), z(Sym.lift(K2).re)])
         ctx.prove("(d) path%d: stf_kolmogorov(r/r0) = (6.8839/6.88) structure_function_kolmogorov(r,r0)" % pi, hyp, k2 * z(core.tov(6.88)) == k1 * z(core.tov(6.8839)),
                   replay=lambda m: _replay_kol(clampv(mv(m))), witness_terms=NAMES, timeout_ms=60000)
@@ -368,7 +368,7 @@ def case_history(ctx):
             A_ = z(Fr(float(L0v / r0v) ** (5. / 3)))
             tol = z(Fr(1, 10 ** 9))
             ctx.prove("path%d call %d (r0=%s, L0=%s): slope-covariance copy = Karhunen-Loeve copy" % (pi, k, r0v, L0v), hyp + [a >= 0, b >= 0],
-                      z3.And(a - b <= tol * A_, b - a <= tol * A_), replay=lambda m: harness.pristine_call(_replay_hist), timeout_ms=60000)
+                      z3.And(a - b <= tol * A_, b - a <= tol * A_), replay=lambda m: harness.pristine_call(_replay_hist), timeout_ms=20000, replay_on_unknown=True)
             key = (r0v, L0v)
             if key in first_cov:
                 ctx.prove("path%d call %d: phase_covariance repeats its earlier value for the same atmosphere" % (pi, k), hyp,
